@@ -1,6 +1,7 @@
 """C04 - malformed blocks never damage neighbours: parsing resyncs at the next @block."""
 import gens_split as G
 import splitcommon as SC
+from props import c04_selfref as SR
 
 ENGINE = "split"
 RULE = ("triples (D1, X, D2): D1, D2 grammar documents (D1 ending in a complete block, D2 starting with '@type{' at a line start, "
@@ -16,6 +17,20 @@ RULE = ("triples (D1, X, D2): D1, D2 grammar documents (D1 ending in a complete 
         "suffixes D2 that hold, early, what would end the open construct (a quote followed by ',' or '}', closing braces, '=', ',') "
         "in braced values, comment / preamble / string bodies and free text behind the first block. Also checked for every "
         "non-empty X: parse(D1+X) alone starts with parse(D1). "
+        "Streams SR-* (c04_selfref.py): the library's own artefacts as input, texts made in the child from the tree under test - "
+        "the writer's warning comment (selfref.warning_lines: exact and 23 near misses incl. other digit systems, case, blanks, "
+        "doubled, the bare template; default and 9 custom templates) ending X directly above / one or two blank lines above / far "
+        "from / with trailing blanks, CR, indentation (SR-above), for every count 0..lines(D2)+2 (SR-sweep), starting X right behind "
+        "the last block of D1 (SR-below), inside explicit comments / values / @string / @preamble / cut-off blocks of X and at the end "
+        "of D1 / start of D2 (SR-inside, SR-edge), above a block of X that fails in the splitter / repeats a field / repeats a key / is "
+        "valid, with counts that stop at that block or reach into D2 (SR-written); the announced count is the lines of the first "
+        "block of D2, of its first two blocks, of all of D2, or up to its first empty line, D2's first block being every kind of valid "
+        "block (13), a duplicate-field block or the first of a duplicate-key pair, followed by EOF, a newline, a blank line, no blank "
+        "line, a block on the same line, CRLF; default separator / indent / VAL_SEP / template and the reserved words as X (SR-words); "
+        "and what arises by itself (SR-cycle): parse -> write repeated 2, 3, 4 times under 8 formats with the empty and the default "
+        "stacks on documents with failed blocks of every kind, as X between plain or written D1 / D2, or the whole D1+X+D2 written "
+        "and cut again into written D1, middle, written D2. For documents made of own blocks the statement is also checked on the "
+        "library returned with the default middleware stack (oracle only). "
         "distinct = distinct (D1, X, D2); non-trivial = X is non-empty and not whitespace")
 TRUSTED = ["the decomposition into D1 / X / D2 is the generator's"]
 ASSUMPTIONS = []
@@ -86,6 +101,8 @@ def generate(rng, tier):
                 x = _lead(rng) + tx + rng.choice(["", "", "\n", " ", "\n\n", "\t", "\r\n", " \n "])
                 d2 = head + rng.choice(["", "\n", "\n@book{R9, title = {Third}}\n", "\n" + rng.choice(d2s[:6]), " " + rng.choice(d2s)])
                 cases.append({"stream": "TR", "input": {"d1": rng.choice(d1s), "x": x, "d2": d2, "state": state, "hclass": hclass}})
+    # the library's own artefacts as X and at the edges of D1 / D2 (appended last: the draws above stay as they were)
+    cases += SR.gen(rng, tier, _truncated)
     return cases
 
 
@@ -319,21 +336,18 @@ def _same(v1, v2, shift):
     return ""
 
 
-def impl(case):
-    inp = case["input"]
-    d1, x, d2 = inp["d1"], inp["x"], inp["d2"]
-    text = d1 + x + "\n" + d2
-    rec, r = SC.base_record(text)
+def _judge(parse, d1, x, glue, d2, r=None):
+    """The property statement on the implementation's objects; parse(text) -> guarded result.  -> (ok, detail)"""
+    if r is None:
+        r = parse(d1 + x + glue + d2)
     # each parse is looked at as it is when it returns, before anything else is parsed
     v = _views(r[1]) if r[0] != "exc" else None
-    r1 = SC.split_impl(d1)
+    r1 = parse(d1)
     v1 = _views(r1[1]) if r1[0] != "exc" else None
-    r2 = SC.split_impl(d2)
+    r2 = parse(d2)
     v2 = _views(r2[1]) if r2[0] != "exc" else None
     if v is None or v1 is None or v2 is None:
-        rec["oracle"] = {"ok": False, "detail": "parse raised"}
-        rec["nontrivial"] = True
-        return rec
+        return False, "parse raised"
     bs = r[1].blocks
     ok, detail = True, ""
     if len(v) < len(v1) + len(v2):
@@ -344,7 +358,7 @@ def impl(case):
             if d:
                 ok, detail = False, "block %d of the well-formed prefix changed: %r: %s" % (i, (bs[i].raw or "")[:50], d)
                 break
-        shift = (d1 + x + "\n").count("\n")
+        shift = (d1 + x + glue).count("\n")
         off = len(v) - len(v2)
         if ok:
             for i, w in enumerate(v2):
@@ -357,7 +371,7 @@ def impl(case):
             ok, detail = False, "concatenation of well-formed documents gives %d blocks instead of %d" % (len(v), len(v1) + len(v2))
     if ok and x != "":
         # first clause on its own: the arbitrary text is the end of the input (nothing well-formed behind it)
-        r3 = SC.split_impl(d1 + x)
+        r3 = parse(d1 + x)
         v3 = _views(r3[1]) if r3[0] != "exc" else None
         if v3 is None:
             ok, detail = False, "parse of prefix + arbitrary text raised"
@@ -369,12 +383,42 @@ def impl(case):
                 if d:
                     ok, detail = False, "block %d of the well-formed prefix changed by the text behind it (no suffix): %s" % (i, d)
                     break
+    return ok, detail
+
+
+def _parse_default(text):
+    import bibtexparser
+    import implutil
+    return implutil.guarded(lambda: bibtexparser.parse_string(text))
+
+
+def impl(case):
+    inp = case["input"]
+    notes = []
+    if "sr" in inp:
+        # the library's own artefacts: the texts are made here, from the tree under test (c04_selfref.py)
+        d1, x, glue, d2, notes = SR.materialise(inp)
+    else:
+        d1, x, glue, d2 = inp["d1"], inp["x"], "\n", inp["d2"]
+    text = d1 + x + glue + d2
+    rec, r = SC.base_record(text)
+    ok, detail = _judge(SC.split_impl, d1, x, glue, d2, r)
+    if ok and inp.get("own"):
+        # documents made of own blocks (nothing in D2 refers to an @string of a neighbour): the statement also holds for the
+        # library that parse_string returns with its default middleware stack; no model counterpart, the oracle alone decides
+        ok, detail = _judge(_parse_default, d1, x, glue, d2)
+        if not ok:
+            detail = "default parse stack: " + detail
+    if not ok and "sr" in inp:
+        detail += " :: D1 %r X %r%s D2 %r" % (d1, x, "" if glue == "\n" else " glue %r" % glue, d2)
     rec["oracle"] = {"ok": ok, "detail": detail}
-    rec["nontrivial"] = x.strip() != ""
+    rec["nontrivial"] = x.strip() != "" or "parse raised" in detail
     rec["key"] = str(hash((d1, x, d2)))
     rec["tags"] = [case["stream"]]
     if "state" in inp:
         rec["tags"] += ["TR-state:" + inp["state"], "TR-suffix:" + inp["hclass"]]
+    if "sr" in inp:
+        rec["tags"] += list(inp["sr"]) + notes + (["SR-default-stack-too"] if inp.get("own") else [])
     return rec
 
 
